@@ -523,20 +523,20 @@ class Interp:
         return self.models.unaryop(type(node.op), v, node)
 
     def ex_BoolOp(self, node):
-        if isinstance(node.op, ast.And):
-            v = BoolV(True)
-            for e in node.values:
-                v = self.eval(e)
-                if not self.truth(v, e):
-                    return v if not isinstance(v, CmpV) else BoolV(False)
-            return v if not isinstance(v, CmpV) else BoolV(True)
-        else:
-            v = BoolV(False)
-            for e in node.values:
-                v = self.eval(e)
-                if self.truth(v, e):
-                    return v if not isinstance(v, CmpV) else BoolV(True)
-            return v if not isinstance(v, CmpV) else BoolV(False)
+        """`a and b` / `a or b` return one of their operands; only the non-final operands are tested."""
+        is_and = isinstance(node.op, ast.And)
+        last = len(node.values) - 1
+        v = BoolV(is_and)
+        for i, e in enumerate(node.values):
+            v = self.eval(e)
+            if i == last:
+                return v
+            t = self.truth(v, e)
+            if is_and and not t:
+                return BoolV(False) if isinstance(v, CmpV) else v
+            if (not is_and) and t:
+                return BoolV(True) if isinstance(v, CmpV) else v
+        return v
 
     def ex_IfExp(self, node):
         if self.truth(self.eval(node.test), node.test):
@@ -568,6 +568,26 @@ class Interp:
 
     def ex_ListComp(self, node):
         return self._comp(node, node.elt, as_list=True)
+
+    def ex_DictComp(self, node):
+        from .models import DictV
+        if len(node.generators) != 1:
+            self.unsupported(node, "nested comprehension")
+        g = node.generators[0]
+        seq = self.models.iterate(self.eval(g.iter), node)
+        if seq is None:
+            self.unsupported(node, "dict comprehension over an opaque iterable")
+        saved = dict(self.frame.env)
+        try:
+            items = []
+            for x in seq:
+                self.assign(g.target, x)
+                if all(self.truth(self.eval(c), c) for c in g.ifs):
+                    items.append((self.eval(node.key), self.eval(node.value)))
+            return DictV(items)
+        finally:
+            self.frame.env.clear()
+            self.frame.env.update(saved)
 
     def ex_SetComp(self, node):
         return self._comp(node, node.elt, as_list=True)
